@@ -26,6 +26,8 @@ type Prog struct {
 	inlineMemo map[calleeKey][]uint32 // per top-level pathMasks call: masks a helper's success returns may carry
 	inlining map[*ssa.Function]bool // helpers currently being looked into by the path engine (recursion guard)
 	merged     map[string]bool // reference functions _x that now live inside their wrapper x
+	forwards   map[string]string // reference function -> new helper that now holds its body (anchor forwarding)
+	forwardedFrom map[*ssa.Function]string // the helper -> name of the reference function it stands for
 	Inlined    []inlineNote // helpers unknown to the reference tree that were inlined (or kept, with the reason)
 	InlineFail string
 	Dir   string
@@ -209,7 +211,7 @@ func (p *Prog) Pkg(rel string) *ssa.Package {
 // receiver type name and name. Returns nil if not found.
 func (p *Prog) Func(rel, recv, name string) *ssa.Function {
 	if f := p.func0(rel, recv, name); f != nil {
-		return f
+		return p.forwarded(f)
 	}
 	key := modPath + "/" + rel + "." + name
 	if recv != "" {
@@ -229,6 +231,67 @@ func (p *Prog) Func(rel, recv, name string) *ssa.Function {
 		}
 	}
 	return nil
+}
+
+// forwarded: a reference function that has become a thin front for a NEW helper which the source-level
+// inliner could not fold back (it defers, recovers, ...): `guard clauses; return h.newHelper(args)`.
+// The body the rules were written against now lives in that helper, so the helper is the anchor. The
+// front must be loop-free, make exactly one call to a module function that is not in the reference tree,
+// and return that call's results unchanged on the path that reaches it. Recorded in the evidence.
+func (p *Prog) forwarded(f *ssa.Function) *ssa.Function {
+	for depth := 0; depth < 3; depth++ {
+		if f == nil || len(f.Blocks) == 0 || len(naturalLoops(f)) > 0 {
+			return f
+		}
+		var target *ssa.Function
+		var call *ssa.Call
+		n := 0
+		for _, b := range f.Blocks {
+			for _, in := range b.Instrs {
+				c, ok := in.(*ssa.Call)
+				if !ok {
+					continue
+				}
+				callee := c.Common().StaticCallee()
+				if callee == nil || !inModule(callee) || callee.Synthetic != "" {
+					continue
+				}
+				o, isFn := callee.Object().(*types.Func)
+				if !isFn || referenceFuncs[funcKey(o)] || fnAlias[funcKey(o)] != "" {
+					continue
+				}
+				n++
+				target, call = callee, c
+			}
+		}
+		if n != 1 || target == nil {
+			return f
+		}
+		// tail position: the block of the call ends in a return of the call's results
+		ret, isRet := call.Block().Instrs[len(call.Block().Instrs)-1].(*ssa.Return)
+		if !isRet {
+			return f
+		}
+		for i, rv := range ret.Results {
+			if c2, idx := callOf(rv); c2 != call || (idx != -1 && idx != i) {
+				return f
+			}
+		}
+		if p.forwards == nil {
+			p.forwards = map[string]string{}
+		}
+		p.forwards[fnName(f)] = fnName(target)
+		if p.forwardedFrom == nil {
+			p.forwardedFrom = map[*ssa.Function]string{}
+		}
+		orig := f.Name()
+		if o, ok := p.forwardedFrom[f]; ok {
+			orig = o
+		}
+		p.forwardedFrom[target] = orig
+		f = target
+	}
+	return f
 }
 
 func (p *Prog) func0(rel, recv, name string) *ssa.Function {
